@@ -109,6 +109,72 @@ def rule_no_cached_binding_state(em, rep, rid):
     rep.minimum('field assignments in the engine', n, 5)
 
 
+def rule_no_dereferenced_value_cached(em, rep, rid):
+    rep.rule(rid, 'a dereferenced value is not kept on an object for later: outside constructors no field other than the binding '
+                  'cell itself is assigned something obtained - directly, through locals, or through a helper that returns such '
+                  'a value - by get_value(..) or by reading the cell; what a bound variable stands for changes when an inner '
+                  'variable is re-bound, so a value kept from an earlier moment is stale')
+    from .eng import is_deref_call
+    funcs = list(em.repo.all_functions(('engine',)))
+
+    def reads_cell(e):
+        return any((isinstance(x, ast.Attribute) and x.attr in CELL and isinstance(x.ctx, ast.Load)) or is_deref_call(x) for x in ast.walk(e))
+    # helpers whose result is (built from) a dereferenced value
+    deref_like = set()
+    changed = True
+    while changed:
+        changed = False
+        for g in funcs:
+            if g in deref_like or g.is_generator or g.name in ('__init__', '__str__', '__repr__', 'to_python'):
+                continue
+            rets = [x.value for x in own_nodes(g.node) if isinstance(x, ast.Return) and x.value is not None]
+            if any(derived(g, v, deref_like, reads_cell) for v in rets):
+                deref_like.add(g)
+                changed = True
+    n = 0
+    for f in funcs:
+        if f.name == '__init__':
+            continue
+        for s_ in own_nodes_ordered(f.node):
+            if not isinstance(s_, (ast.Assign, ast.AugAssign, ast.AnnAssign)) or s_.value is None:
+                continue
+            tg = s_.targets if isinstance(s_, ast.Assign) else [s_.target]
+            flds = [t for t in tg if isinstance(t, ast.Attribute) and t.attr not in CELL]
+            if not flds:
+                continue
+            n += 1
+            if derived(f, s_.value, deref_like, reads_cell):
+                rep.violation(rid, '%s:%s' % (f.qname, norm(flds[0])), 'the field %s keeps a dereferenced value (%s) beyond the moment it '
+                              'was computed: bindings made or undone afterwards - of the variable itself or of variables inside '
+                              'the value - leave it stale, and whoever reads it later (assert, a copy) sees an earlier state'
+                              % (norm(flds[0]), norm(s_.value)[:50]), f.loc(s_))
+    rep.ok(rid, 'field stores', '%d field assignments outside constructors examined; helpers returning dereferenced values: %s' % (
+        n, ', '.join(sorted(g.qname for g in deref_like)) or '-'), None, nontrivial=bool(n))
+    rep.minimum('field assignments outside constructors', n, 3)
+
+
+def derived(f, e, deref_like, reads_cell, depth=0, seen=None):
+    """is the value of expression e (in function f) obtained from a dereference: directly, via local copies, via a
+    helper in deref_like"""
+    seen = seen if seen is not None else set()
+    if depth > 5:
+        return False
+    if reads_cell(e):
+        return True
+    for x in ast.walk(e):
+        if isinstance(x, ast.Call):
+            name = x.func.id if isinstance(x.func, ast.Name) else x.func.attr if isinstance(x.func, ast.Attribute) else None
+            if name and any(g.name == name for g in deref_like):
+                return True
+        if isinstance(x, ast.Name) and isinstance(x.ctx, ast.Load) and x.id not in seen and x.id not in f.all_params:
+            seen.add(x.id)
+            for s_ in own_nodes(f.node):
+                if isinstance(s_, ast.Assign) and any(is_name(t, x.id) for t in s_.targets):
+                    if derived(f, s_.value, deref_like, reads_cell, depth + 1, seen):
+                        return True
+    return False
+
+
 # ---------------------------------------------------------------------------------------------
 # state created at class-definition time
 
